@@ -183,7 +183,7 @@ func runC16(c *Ctx) {
 		}
 		count := c.N(8000, 200000)
 		if cv.Params().Name != "P-256" {
-			count = c.N(2500, 60000)
+			count = c.N(6400, 60000)
 		}
 		mon.Parallel(c.Workers, count, func(w, i int) {
 			msg := []byte(fmt.Sprintf("message %d/%d", c.Seed, i))
